@@ -1,6 +1,6 @@
 """C08 — verdict and exit status follow the documented tolerances."""
 ID = "C08"
-PROPS = ["F1Verif.Props.C08", "F1Verif.Props.FactsC08", "F1Verif.Props.C14Cli", "F1Verif.Props.RefineC08", "F1Verif.Props.RefineC08C", "F1Verif.Props.RefineC08P"]
+PROPS = ["F1Verif.Props.C08", "F1Verif.Props.FactsC08", "F1Verif.Props.C14Cli", "F1Verif.Props.RefineC08", "F1Verif.Props.RefineC08C", "F1Verif.Props.RefineC08P", "F1Verif.Props.RefineC08X"]
 ALSO = ["F1Verif.Legacy.Verdict"]
 RULE = ("engine A: (hasErr, ignoreDropped, maxFailures, maxFailuresRate, succ, failed, dropped) tuples — "
         "corpus of pinned witnesses, every tolerance threshold +-1, zero-iteration runs, random tuples; "
